@@ -227,7 +227,7 @@ _C01_OPS = [f"m{n}.{o}" for n in (2, 3, 4) for o in _c01] + [
     "m3.from_nonuniform_scale", "m4.from_nonuniform_scale", "m2.to_m3", "m2.to_m4", "m3.to_m4",
     "m3.transform_vector2", "m3.transform_point2", "m3.transform_vector", "m3.transform_point",
     "m4.transform_vector", "m4.transform_point", "m3.concat2", "m3.concat", "m4.concat",
-    "m3.concat_self2", "m4.concat_self", "p3.to_homogeneous", "p3.from_homogeneous"]
+    "m3.concat_self2", "m4.concat_self", "m3.concat_self", "p3.to_homogeneous", "p3.from_homogeneous"]
 
 
 @prop("C01")
@@ -589,7 +589,7 @@ class C08(Base):
             "inverse_transform", "inverse_transform_vector", "to_matrix")] + [
         "m3.transform_vector2", "m3.transform_point2", "m3.transform_vector", "m3.transform_point",
         "m4.transform_vector", "m4.transform_point", "m3.concat2", "m3.concat", "m4.concat",
-        "m3.concat_self2", "m4.concat_self", "m3.inverse_transform2", "m3.inverse_transform",
+        "m3.concat_self2", "m4.concat_self", "m3.concat_self", "m3.inverse_transform2", "m3.inverse_transform",
         "m4.inverse_transform", "m3.inverse_transform_vector2", "m3.inverse_transform_vector",
         "m4.inverse_transform_vector"]
     oracle_ops = ["o.dq.laws", "o.dq.inverse", "o.db3.laws", "o.db3.inverse", "o.db2.laws", "o.db2.inverse",
